@@ -28,7 +28,7 @@ func checkC08(w *World, r *Report) {
 }
 
 func checkC08Guards(w *World, r *Report, d *dispatchInfo) {
-	ru := r.Rule("C08.1", "guard sets in ServeHTTP: redirect only under tsr && method != CONNECT && URL.Path != \"/\" && route.redirectTrailingSlash && path == CleanPath(path); ignored trailing slash only under tsr && method != CONNECT && URL.Path != \"/\" && route.ignoreTrailingSlash; direct match only under !tsr && n != nil; the flags are those of the node returned by the main lookup", 3)
+	ru := r.Rule("C08.1", "guard sets in ServeHTTP: redirect only under tsr && method != CONNECT && URL.Path != \"/\" && route.redirectTrailingSlash && path == CleanPath(path); ignored trailing slash only under tsr && method != CONNECT && URL.Path != \"/\" && route.ignoreTrailingSlash; direct match only under !tsr && n != nil; the flags are those of the node returned by the main lookup", 2)
 	var nVal, tsrVal ssa.Value
 	if refs := d.mainLook.Referrers(); refs != nil {
 		for _, ref := range *refs {
@@ -298,7 +298,7 @@ func colonFact(f Fact, src ssa.Value) (hasColon bool, ok bool) {
 func sameShapeSrc(a, b ssa.Value) bool { return a == b || sameExpr(a, b) }
 
 func checkC08Location(w *World, r *Report) {
-	ru := r.Rule("C08.3", "what reaches Location: the relative reference handed to localRedirect has no part derived from the decoded URL.Path, and begins with a constant \"../\" or \"./\", or with an escaped segment on a path where that segment was tested to contain no ':' (a segment with ':' gets \"./\" in front); localRedirect sets Location from that value", 2)
+	ru := r.Rule("C08.3", "what reaches Location: the relative reference handed to localRedirect has no part derived from the decoded URL.Path, and begins with a constant \"../\" or \"./\", or with an escaped segment on a path where that segment was tested to contain no ':' (a segment with ':' gets \"./\" in front); localRedirect sets Location from that value", 1)
 	fn := w.Func("defaultRedirectTrailingSlashHandler")
 	local := w.Func("localRedirect")
 	r.Analysed(FuncName(fn), FuncName(local))
@@ -388,7 +388,7 @@ func checkC08Location(w *World, r *Report) {
 
 // checkC08TsrParams: the matchers save the candidate's parameters whenever they record a trailing-slash candidate.
 func checkC08TsrParams(w *World, r *Report) {
-	ru := r.Rule("C08.5", "parameters of the adjusted match: every place that records a trailing-slash candidate (tsr = true) also saves its parameters into the context's tsr copy unless the lookup is lazy; candidates coming from a sub-lookup take the sub-context's tsr copy, direct matches from a sub-lookup its params", 6)
+	ru := r.Rule("C08.5", "parameters of the adjusted match: every place that records a trailing-slash candidate (tsr = true) also saves its parameters into the context's tsr copy unless the lookup is lazy; candidates coming from a sub-lookup take the sub-context's tsr copy, direct matches from a sub-lookup its params", 3)
 	for _, name := range []string{"lookupByPath", "lookupByDomain"} {
 		af := w.astFuncOf(modulePath, name)
 		ctxName := ""
